@@ -123,6 +123,14 @@ def groupOp (g : Group) (s : String) : Option (Except GErr Group) :=
       | .ok h => some (g.merge h ri rs)
       | .error e => some (.error e)
     | _, _, _, _ => none
+  | ["M3", ms1, sup1, ms2, sup2, ri, rs] =>
+    match parseMembers ms1, parseSupOpt sup1, parseMembers ms2, parseSupOpt sup2, parseBool ri, parseBool rs with
+    | some ms1, some sup1, some ms2, some sup2, some ri, some rs =>
+      match Group.new ms1 sup1 false, Group.new ms2 sup2 false with
+      | .ok h1, .ok h2 => some (g.mergeN [h1, h2] ri rs)
+      | .error e, _ => some (.error e)
+      | _, .error e => some (.error e)
+    | _, _, _, _, _, _ => none
   | ["Y"] => some g.roundtrip
   | _ => none
 
